@@ -1087,3 +1087,129 @@ Definition op_ok (T : tables) (o : op) : Prop :=
   | AddMovie _ v po => blob_ok T v /\ match po with PImg b => blob_ok T b | _ => True end
   | _ => True
   end.
+
+(** ---- decidable form of Inv (sound, see proofs/PkgOps_proofs.v): printed by the runner for
+    every input deck so that the check can confirm its decks meet the hypothesis of the
+    theorems; used for the non-vacuity examples ---- *)
+
+Definition good_partb (n : nat) (x : part) : bool :=
+  Opc.part_nameb (pt_name x) && str_eqb (pt_base x) (baseURI (pt_name x))
+  && forallb (fun q => Nat.ltb q n) (int_targets (pt_rels x))
+  && Opc.nodupb (map rr_id (pt_rels x))
+  && forallb (fun r => match rr_ref r with None => true | Some _ => false end) (pt_rels x)
+  && forallb (fun kr => mem_str (snd kr) (map rr_id (pt_rels x))) (all_refs x)
+  && forallb (fun kr => str_eqb (fst kr) k_id
+                        || match find_rel (snd kr) (pt_rels x) with
+                           | Some x' => negb (mem_str (rr_type x') link_types)
+                           | None => true
+                           end) (all_refs x)
+  && forallb (fun r => match find_rel r (pt_rels x) with
+                       | Some x' => mem_str (rr_type x') link_types
+                       | None => false
+                       end) (slot_rids x)
+  && (negb (str_eqb (pt_ct x) ct_slide || str_eqb (pt_ct x) ct_notes_slide)
+      || match pt_idl x with [] => true | _ => false end)
+  && (negb (str_eqb (pt_ct x) ct_slide_master)
+      || (Opc.nodupb (pt_idl x)
+          && forallb (fun kr => negb (mem_str (snd kr) (pt_idl x))) (pt_refs x ++ slot_refs (pt_slots x)))).
+
+Fixpoint nodupn (l : list nat) : bool :=
+  match l with [] => true | x :: r => negb (memn x r) && nodupn r end.
+
+Fixpoint resolve_all (rs : list relr) (rids : list str) : option (list nat) :=
+  match rids with
+  | [] => Some []
+  | r :: l => match related_part r rs, resolve_all rs l with
+              | Ok q, Some t => Some (q :: t)
+              | _, _ => None
+              end
+  end.
+
+Fixpoint names_from (parts : list part) (i : N) (tg : list nat) : bool :=
+  match tg with
+  | [] => true
+  | q :: t => str_eqb (name_of parts q) (Ids.slide_name i) && names_from parts (i + 1)%N t
+  end.
+
+Definition intabb (T : tables) (x : part) : bool :=
+  Opc.in_table (t_def T) (Opc.lower (ext (pt_name x))) (pt_ct x).
+
+Definition iter_parts (s : state) : list part :=
+  flat_map (fun p => match getp s p with Some x => [x] | None => [] end) (iter_pids s).
+
+Definition clashb (T : tables) (s : state) : bool :=
+  forallb (fun x => forallb (fun y =>
+    negb (str_eqb (Opc.lower (ext (pt_name x))) (Opc.lower (ext (pt_name y))) && intabb T x && intabb T y)
+    || str_eqb (pt_ct x) (pt_ct y)) (iter_parts s)) (iter_parts s).
+
+Definition slidesb (s : state) : bool :=
+  match getp s (st_pres s) with
+  | None => false
+  | Some pp =>
+      match resolve_all (pt_rels pp) (pt_idl pp) with
+      | None => false
+      | Some tg =>
+          nodupn tg
+          && forallb (fun q => str_eqb (baseURI (name_of (st_parts s) q)) s_slides_dir) tg
+          && forallb (fun p => negb (str_eqb (baseURI (name_of (st_parts s) p)) s_slides_dir) || memn p tg) (iter_pids s)
+          && (negb (st_slides s) || names_from (st_parts s) 1%N tg)
+      end
+  end.
+
+Definition masterb (s : state) : bool :=
+  forallb (fun m =>
+    match getp s m with
+    | None => true
+    | Some mx =>
+        negb (str_eqb (pt_ct mx) ct_slide_master)
+        || forallb (fun rid =>
+             match related_part rid (pt_rels mx) with
+             | Ok lp => match getp s lp with
+                        | Some lx => match part_with_reltype rt_slide_master (pt_rels lx) with
+                                     | Ok m' => Nat.eqb m' m
+                                     | Err _ => true
+                                     end
+                        | None => true
+                        end
+             | Err _ => true
+             end) (pt_idl mx)
+    end) (seq 0 (length (st_parts s))).
+
+Definition has_type (t : str) (rs : list relr) : bool :=
+  match filter (fun r => str_eqb (rr_type r) t) rs with [] => false | _ => true end.
+
+Definition fixedb (s : state) : bool :=
+  match getp s (st_pres s) with
+  | None => false
+  | Some pp =>
+      (negb (mem_str n_notes_master (iter_names s)) || has_type rt_notes_master (pt_rels pp))
+      && (negb (mem_str n_core (iter_names s)) || has_type rt_core (st_prels s))
+      && match st_nm s with
+         | None => true
+         | Some p => match part_with_reltype rt_notes_master (pt_rels pp) with
+                     | Ok q => Nat.eqb q p
+                     | Err _ => false
+                     end
+         end
+  end.
+
+Definition invb (T : tables) (s : state) : bool :=
+  forallb (good_partb (length (st_parts s))) (st_parts s)
+  && forallb (fun q => Nat.ltb q (length (st_parts s))) (int_targets (st_prels s))
+  && Opc.nodupb (map rr_id (st_prels s))
+  && forallb (fun r => match rr_ref r with None => true | Some _ => false end) (st_prels s)
+  && Opc.nodupb (iter_names s)
+  && match filter (fun r => str_eqb (rr_type r) rt_office_document) (st_prels s) with
+     | [r] => match rr_tgt r with TInt q => Nat.eqb q (st_pres s) | TExt _ => false end
+     | _ => false
+     end
+  && match getp s (st_pres s) with Some pp => negb (mem_str (pt_ct pp) class_cts) | None => false end
+  && clashb T s && slidesb s && masterb s && fixedb s.
+
+(** decidable form of tables_ok *)
+Definition tables_okb (T : tables) : bool :=
+  Opc.nodupb (map fst (t_init T))
+  && forallb (fun kv => str_eqb (Opc.lower (fst kv)) (fst kv)) (t_init T)
+  && forallb (fun a => forallb (fun b =>
+       negb (str_eqb (fst a) (fst b)) || str_eqb (snd a) (snd b) || str_eqb (fst a) s_bin) (t_def T)) (t_def T)
+  && forallb (fun c => negb (Opc.in_table (t_def T) s_bin c)) new_part_cts.
